@@ -403,6 +403,10 @@ func main() {
 					rec.AddAttributes(kvs...)
 					m.add(orig)
 				}
+				// the caller's slice is the caller's again once the call has returned: it is reused as scratch
+				for i := range kvs {
+					kvs[i] = log.String("scribbled-by-the-caller", "0123456789012345678901234567890123456789")
+				}
 			}
 
 			m := newModel(cnt, length)
@@ -445,7 +449,13 @@ func main() {
 					}
 				}
 			}}
-			lp := sdklog.NewLoggerProvider(sdklog.WithProcessor(cp), sdklog.WithAttributeCountLimit(cnt), sdklog.WithAttributeValueLengthLimit(length))
+			lopts := []sdklog.LoggerProviderOption{sdklog.WithProcessor(cp)}
+			if r.Bool() {
+				// an earlier option that a later one overrides: the last one given counts, "unlimited" included
+				lopts = append(lopts, sdklog.WithAttributeValueLengthLimit(vf.Pick(r, []int{0, 2, 7})), sdklog.WithAttributeCountLimit(vf.Pick(r, []int{1, 3})))
+			}
+			lopts = append(lopts, sdklog.WithAttributeCountLimit(cnt), sdklog.WithAttributeValueLengthLimit(length))
+			lp := sdklog.NewLoggerProvider(lopts...)
 			k.Guard("panic", "", func() { lp.Logger("c17").Emit(context.Background(), apiRec) })
 
 			flag := func(b bool, name string) string {
